@@ -36,6 +36,10 @@ type C14Case struct {
 	// Phase2 (faults restart, partition): once the connection is back a second observer on A relates to
 	// the same name and event, then the target terminates
 	Phase2 bool `json:"phase2,omitempty"`
+	// Reverse: a process of A ("ltarget": pid, name, alias, event) is linked / monitored by a process
+	// on B and, with the same kinds, by a bystander on A. Whatever happens to B, the bystander's
+	// relations are not touched: when ltarget is killed at the end it gets exactly one notification each
+	Reverse []C14Rel `json:"reverse,omitempty"`
 }
 
 type c14 struct{}
@@ -82,6 +86,13 @@ func (c14) Generate(r *simkit.Rand, tier string) any {
 		kinds = append(kinds, C14Rel{Kind: "monitor", What: "pid"})
 	}
 	c.Rels = kinds
+	if r.Chance(0.4) {
+		for _, what := range []string{"pid", "name", "alias", "event"} {
+			if r.Chance(0.5) {
+				c.Reverse = append(c.Reverse, C14Rel{Kind: simkit.Pick(r, "link", "monitor"), What: what})
+			}
+		}
+	}
 	if c.Fault == "cutone" && c.Pool < 2 {
 		c.Pool = 2
 	}
@@ -101,6 +112,11 @@ func (c14) Shrink(cc any) []any {
 	if c.InFlight != "" {
 		n := cloneJSON(c)
 		n.InFlight = ""
+		out = append(out, n)
+	}
+	for i := range c.Reverse {
+		n := cloneJSON(c)
+		n.Reverse = dropAt(n.Reverse, i)
 		out = append(out, n)
 	}
 	if c.PreTerm {
@@ -188,6 +204,155 @@ func (c14) Run(e *simkit.Env, cc any) {
 	// a second, quiet process on B: the addressee of the in-flight important send (bounded mailbox that is full)
 	b.Send(tPID, "setup")
 	e.Settle(time.Millisecond)
+
+	// ---- reverse relations: a target on A watched from B and by a bystander on A ----
+	if len(c.Reverse) > 0 {
+		var lAlias gen.Alias
+		lh := &Hooks{Name: "ltarget", Env: e}
+		lh.Message = func(p *Probe, from gen.PID, m any) error {
+			if m == "setup" {
+				al, err := p.CreateAlias()
+				if err != nil {
+					e.Fail("C14/unexpected-failure", "CreateAlias: %v", err)
+				}
+				lAlias = al
+				if _, err := p.RegisterEvent("lev", gen.EventOptions{}); err != nil {
+					e.Fail("C14/unexpected-failure", "RegisterEvent: %v", err)
+				}
+			}
+			return nil
+		}
+		lPID, err := a.SpawnRegister("ltarget", ProbeFactory(lh), gen.ProcessOptions{})
+		if err != nil {
+			e.Infra("spawn ltarget: " + err.Error())
+			return
+		}
+		a.Send(lPID, "setup")
+		e.Settle(time.Millisecond)
+		relate := func(p *Probe, rl C14Rel) error {
+			var err error
+			switch {
+			case rl.What == "event" && rl.Kind == "link":
+				_, err = p.LinkEvent(gen.Event{Name: "lev", Node: "a@h1"})
+			case rl.What == "event":
+				_, err = p.MonitorEvent(gen.Event{Name: "lev", Node: "a@h1"})
+			case rl.What == "pid" && rl.Kind == "link":
+				err = p.LinkPID(lPID)
+			case rl.What == "pid":
+				err = p.MonitorPID(lPID)
+			case rl.What == "name" && rl.Kind == "link":
+				err = p.LinkProcessID(gen.ProcessID{Name: "ltarget", Node: "a@h1"})
+			case rl.What == "name":
+				err = p.MonitorProcessID(gen.ProcessID{Name: "ltarget", Node: "a@h1"})
+			case rl.Kind == "link":
+				err = p.LinkAlias(lAlias)
+			default:
+				err = p.MonitorAlias(lAlias)
+			}
+			return err
+		}
+		var bnotes []string
+		mkWatcher := func(name string, record bool) (*Hooks, chan struct{}) {
+			done := make(chan struct{})
+			h := &Hooks{Name: name, Env: e, Trap: true}
+			h.Message = func(p *Probe, from gen.PID, m any) error {
+				if m == "relate" {
+					for _, rl := range c.Reverse {
+						if err := relate(p, rl); err != nil {
+							e.Fail("C14/unexpected-failure", "%s: %s on %s of the live process ltarget on a@h1 failed: %v", name, rl.Kind, rl.What, err)
+						}
+					}
+					close(done)
+					return nil
+				}
+				if !record {
+					return nil
+				}
+				what, reason, link := "", "", false
+				switch v := m.(type) {
+				case gen.MessageExitPID:
+					what, reason, link = "pid", c04Reason(v.Reason), true
+				case gen.MessageDownPID:
+					what, reason = "pid", c04Reason(v.Reason)
+				case gen.MessageExitProcessID:
+					what, reason, link = "name", c04Reason(v.Reason), true
+				case gen.MessageDownProcessID:
+					what, reason = "name", c04Reason(v.Reason)
+				case gen.MessageExitAlias:
+					what, reason, link = "alias", c04Reason(v.Reason), true
+				case gen.MessageDownAlias:
+					what, reason = "alias", c04Reason(v.Reason)
+				case gen.MessageExitEvent:
+					what, reason, link = "event", c04Reason(v.Reason), true
+				case gen.MessageDownEvent:
+					what, reason = "event", c04Reason(v.Reason)
+				default:
+					return nil
+				}
+				kind := "monitor"
+				if link {
+					kind = "link"
+				}
+				mu.Lock()
+				bnotes = append(bnotes, kind+" "+what+" "+reason)
+				mu.Unlock()
+				e.Logf("bystander notified: %s %s %s", kind, what, reason)
+				return nil
+			}
+			return h, done
+		}
+		wh, wdone := mkWatcher("rwatcher", false)
+		wpid, err := spawnUnder(e, b, wh)
+		if err != nil {
+			e.Infra("spawn rwatcher: " + err.Error())
+			return
+		}
+		bh, bdone := mkWatcher("bystander", true)
+		bpid, err := spawnUnder(e, a, bh)
+		if err != nil {
+			e.Infra("spawn bystander: " + err.Error())
+			return
+		}
+		b.Send(wpid, "relate")
+		a.Send(bpid, "relate")
+		if !e.WaitChan(wdone, time.Minute) || !e.WaitChan(bdone, time.Minute) {
+			e.Fail("C14/unexpected-failure", "the watchers of ltarget did not finish establishing their relations within a simulated minute")
+			return
+		}
+		if e.Failed() {
+			return
+		}
+		e.Probe("local-target-watched-from-the-remote-node")
+		// runs after the scenario, before the nodes are stopped
+		defer func() {
+			if e.Failed() {
+				return
+			}
+			mu.Lock()
+			early := append([]string(nil), bnotes...)
+			mu.Unlock()
+			if len(early) > 0 {
+				e.Fail("C14/bystander-notified", "fault %s on b@h2: a process of a@h1 that watches the live local process ltarget (also watched from b@h2) was notified %v", c.Fault, early)
+				return
+			}
+			a.Kill(lPID)
+			e.Settle(3 * time.Second)
+			mu.Lock()
+			got := append([]string(nil), bnotes...)
+			mu.Unlock()
+			var want []string
+			for _, rl := range c.Reverse {
+				want = append(want, rl.Kind+" "+rl.What+" kill")
+			}
+			sortStrings(got)
+			sortStrings(want)
+			if fmt.Sprint(got) != fmt.Sprint(want) {
+				e.Fail("C14/bystander-not-notified", "fault %s on b@h2: ltarget on a@h1 was watched from b@h2 and by a local bystander; after the fault it was killed and the bystander got %v, expected %v", c.Fault, got, want)
+				return
+			}
+			e.Probe("bystander-relations-intact")
+		}()
+	}
 
 	classify := func(m any) (c14Note, bool) {
 		switch v := m.(type) {
